@@ -49,6 +49,8 @@ def build(target: str) -> Path:
                            flags=["-O1", "-g", *SAN, "-DRAW_DRIVER_MAIN"], out="raw_driver"),
         "libraw_native": dict(src=NATIVE / "raw_native.cc", deps=[CPP / "raw_io.cc", CPP / "raw_io.hh"],
                               flags=["-O2", "-fPIC", "-shared"], out="libraw_native.so"),
+        "raw_tsan": dict(src=NATIVE / "raw_native.cc", deps=[CPP / "raw_io.cc", CPP / "raw_io.hh"],
+                         flags=["-O1", "-g", "-fsanitize=thread", "-pthread", "-DRAW_TSAN_MAIN"], out="raw_tsan"),
         "root_driver": dict(src=NATIVE / "root_native.cc", deps=[CPP / "root_io.hh", UPROOT_CUSTOM_INC / "uproot-custom" / "uproot-custom.hh"],
                             flags=["-O1", "-g", *SAN], out="root_driver"),
     }
